@@ -531,6 +531,11 @@ class MessageManager(interfaces.TokenInterface, interfaces.MessageManager):
             assert any(
                 remote == message.remote for (remote, _) in self._active_exchanges
             )
+            # A message that can not be serialized needs to fail here, where
+            # the sender can still react (eg. by sending an error response
+            # instead), and not when the backlog is worked off from inside
+            # the processing of some unrelated incoming message.
+            message.encode()
             self.log.debug("Message to %s put into backlog", message.remote)
             self._backlogs[message.remote].append((message, messageerror_monitor))
         else:
